@@ -3,10 +3,17 @@
            op = [1 rid [fwd ...] [steps ...]]  start GET number rid (0..2); fwd = HandleForward verdict per attempt,
                                                steps = outcome per attempt that reaches a live backend (see ConnCount.simulate);
                                                the harness waits until the request has completed or is held by a backend
-              | [2 rid]                        release request rid if a backend holds it and wait for its completion (else no-op)
-   output: one entry per op: [[attempts] status held [c0 c1 c2]]
-           attempts = backends chosen so far for rid (0, 1 live; 2 refuses connections), status = reply status (0 while held),
-           held = 1 iff the request is now waiting inside a backend, c_k = BfeBackend.ConnNum() of backend k at that moment.
+              | [2 rid]                        release request / tunnel rid if a backend holds it and wait for its end (else no-op)
+              | [3 rid kind st]                open a tunnel in slot rid: kind 0 = WebSocket upgrade (bfe_websocket), 1 = TLS
+                                               stream (bfe_stream), 2 = WebSocket upgrade routed to a cluster whose only backend refuses
+                                               connections (findBackend gives up); st = what the live backend that gets the connection does:
+                                               0 accept and keep the tunnel open until released, 1 close after the first bytes,
+                                               2 reject (WebSocket: 403 instead of 101; stream: close)
+   output: one entry per op: [[attempts] status held [c0 c1 c2 c3]]
+           attempts = backends chosen so far for rid (0, 1 live; 2 refuses connections); for a tunnel only the live backend that
+           finally got the connection is observable ([] = findBackend gave up after connectRetryMax refused dials);
+           status = reply status (0 while held; 1 for a tunnel that has ended),
+           held = 1 iff the request / tunnel is now waiting inside a backend, c_k = BfeBackend.ConnNum() of backend k at that moment.
    The balancer's choices are left open by the model: agree_C07 validates the observed trace (choices taken from the
    observation, everything else predicted). *)
 From Coq Require Import List ZArith Bool.
@@ -15,9 +22,11 @@ Import ListNotations.
 Open Scope Z_scope.
 
 Definition DEAD : nat := 2%nat.
-Definition NB : nat := 3%nat.
+Definition NB : nat := 4%nat.     (* backends: 0, 1 live, 2 refuses connections; 3 = the only backend of a second cluster, refuses connections *)
+Definition DEAD2 : nat := 3%nat.
+Definition NR : nat := 3%nat.     (* request slots *)
 
-Inductive hop := HStart (rid : nat) (fwd steps : list Z) | HRelease (rid : nat).
+Inductive hop := HStart (rid : nat) (fwd steps : list Z) | HRelease (rid : nat) | HTunnel (rid : nat) (kind st : Z).
 
 Definition decode_op (v : val) : option hop :=
   match v with
@@ -30,6 +39,9 @@ Definition decode_op (v : val) : option hop :=
     | _, _ => None
     end
   | VL [VZ 2; VZ rid] => if (0 <=? rid) && (rid <? 3) then Some (HRelease (Z.to_nat rid)) else None
+  | VL [VZ 3; VZ rid; VZ kind; VZ st] =>
+    if (0 <=? rid) && (rid <? 3) && (0 <=? kind) && (kind <=? 2) && (0 <=? st) && (st <=? 2)
+    then Some (HTunnel (Z.to_nat rid) kind st) else None
   | _ => None
   end.
 
@@ -43,54 +55,87 @@ Definition decode_C07 (v : val) : option (Z * list hop) :=
   | _ => None
   end.
 
-(* harness-level bookkeeping: per rid  0 = idle, 1 = held; plus the choices seen so far *)
-Record hstate := mkH { h_model : state; h_held : nat -> bool; h_choices : nat -> list nat; h_status : nat -> Z }.
-Definition h_init : hstate := mkH s_init (fun _ => false) (fun _ => []) (fun _ => 0).
+(* harness-level bookkeeping per request slot: the backend holding it (if any), the choices seen, the last status,
+   whether it is a tunnel.  Model requests are indexed by the slot; a slot is re-initialised when it is reused. *)
+Record hstate := mkH { h_model : state; h_hold : nat -> option nat; h_choices : nat -> list nat;
+                       h_status : nat -> Z; h_tun : nat -> bool }.
+Definition h_init : hstate := mkH s_init (fun _ => None) (fun _ => []) (fun _ => 0) (fun _ => false).
+Definition is_held (h : hstate) (rid : nat) : bool := match h_hold h rid with Some _ => true | None => false end.
 
 Definition counts_val (s : state) : val := VL (map (fun b => VZ (counts s b)) (seq 0 NB)).
 Definition obs_val (choices : list nat) (status : Z) (held : bool) (s : state) : val :=
   VL [VL (map (fun b => VZ (Z.of_nat b)) choices); VZ status; vbool held; counts_val s].
 
-(* fresh model slot per started request: the model indexes requests by a running number so that a rid can be
-   reused after completion; slot = number of HStart ops so far *)
-Fixpoint exec (rm : Z) (ops : list hop) (choose : nat -> hop -> list nat) (k : nat)
-         (slot : nat -> nat) (nslots : nat) (h : hstate) : option (list val) :=
+Definition tag (rid : nat) (l : list op) : list (nat * op) := map (fun x => (rid, x)) l.
+
+(* operations of a tunnel: the dials that were refused are not observable and leave no trace in the counts; the
+   canonical trace has none before a successful pick and connectRetryMax = 3 of them before giving up *)
+Definition give_up (d : nat) : list op :=
+  [TunnelPick d; TunnelDialFail; TunnelPick d; TunnelDialFail; TunnelPick d; TunnelDialFail; TunnelGiveUp].
+Definition tunnel_ops (kind : Z) (ch : list nat) (st : Z) : option (list op * bool) :=
+  match ch with
+  | [] => Some (give_up (if kind =? 2 then DEAD2 else DEAD), false)
+  | [b] => if Nat.ltb b DEAD && negb (kind =? 2)
+           then Some (if st =? 0 then ([TunnelPick b], true) else ([TunnelPick b; TunnelEnd], false)) else None
+  | _ => None
+  end.
+
+Fixpoint exec (rm : Z) (ops : list hop) (choose : nat -> hop -> list nat) (k : nat) (h : hstate) : option (list val) :=
   match ops with
   | [] => Some []
   | o :: rest =>
     match o with
     | HStart rid fwd steps =>
-      if h_held h rid then None else
+      if is_held h rid then None else
       let ch := choose k o in
       match simulate 40 DEAD rm 0 fwd steps ch with
       | None => None
       | Some m =>
         if negb (Nat.eqb (m_used m) (length ch)) then None else
-        let sl := nslots in
-        match run_ops (h_model h) (map (fun x => (sl, x)) (m_ops m)) with
+        match run_ops (reset (h_model h) rid) (tag rid (m_ops m)) with
         | None => None
         | Some s' =>
-          let h' := mkH s' (upd (h_held h) rid (m_held m)) (upd (h_choices h) rid ch) (upd (h_status h) rid (m_status m)) in
-          match exec rm rest choose (S k) (upd slot rid sl) (S nslots) h' with
+          let h' := mkH s' (upd (h_hold h) rid (if m_held m then Some (last ch O) else None)) (upd (h_choices h) rid ch)
+                        (upd (h_status h) rid (m_status m)) (upd (h_tun h) rid false) in
+          match exec rm rest choose (S k) h' with
           | Some l => Some (obs_val ch (m_status m) (m_held m) s' :: l)
           | None => None
           end
         end
       end
+    | HTunnel rid kind st =>
+      if is_held h rid then None else
+      let ch := choose k o in
+      match tunnel_ops kind ch st with
+      | None => None
+      | Some (tops, held) =>
+        match run_ops (reset (h_model h) rid) (tag rid tops) with
+        | None => None
+        | Some s' =>
+          let status := if held then 0 else 1 in
+          let h' := mkH s' (upd (h_hold h) rid (if held then Some (last ch O) else None)) (upd (h_choices h) rid ch)
+                        (upd (h_status h) rid status) (upd (h_tun h) rid true) in
+          match exec rm rest choose (S k) h' with
+          | Some l => Some (obs_val ch status held s' :: l)
+          | None => None
+          end
+        end
+      end
     | HRelease rid =>
-      if negb (h_held h rid) then
+      if negb (is_held h rid) then
         (* nothing to release: the request has completed already (or was never started) *)
-        match exec rm rest choose (S k) slot nslots h with
+        match exec rm rest choose (S k) h with
         | Some l => Some (obs_val (h_choices h rid) (h_status h rid) false (h_model h) :: l)
         | None => None
         end
       else
-      match run_ops (h_model h) [(slot rid, RoundTrip 0); (slot rid, Finish)] with
+      let status := if h_tun h rid then 1 else 200 in
+      match run_ops (h_model h) (tag rid (if h_tun h rid then [TunnelEnd] else [RoundTrip 0; Finish])) with
       | None => None
       | Some s' =>
-        let h' := mkH s' (upd (h_held h) rid false) (h_choices h) (upd (h_status h) rid 200) in
-        match exec rm rest choose (S k) slot nslots h' with
-        | Some l => Some (obs_val (h_choices h rid) 200 false s' :: l)
+        let h' := mkH s' (upd (h_hold h) rid None) (h_choices h) (upd (h_status h) rid status) (h_tun h) in
+        match exec rm rest choose (S k) h' with
+        | Some l => Some (obs_val (h_choices h rid) status false s' :: l)
         | None => None
         end
       end
@@ -117,13 +162,14 @@ Definition rr_choices (rm : Z) (k : nat) (o : hop) : list nat :=
     | Some n => firstn n stream
     | None => []
     end
+  | HTunnel _ kind _ => if (kind =? 2) || Nat.eqb (Nat.modulo k 3) 2 then [] else [Nat.modulo k 3]
   | _ => []
   end.
 
 Definition run_C07 (v : val) : val :=
   match decode_C07 v with
   | Some (rm, ops) =>
-    match exec rm ops (rr_choices rm) 0 (fun _ => O) 0 h_init with
+    match exec rm ops (rr_choices rm) 0 h_init with
     | Some l => VL l
     | None => VErr 1
     end
@@ -133,7 +179,7 @@ Definition run_C07 (v : val) : val :=
 Definition agree_C07 (i o : val) : bool :=
   match decode_C07 i with
   | Some (rm, ops) =>
-    match exec rm ops (obs_choices o) 0 (fun _ => O) 0 h_init with
+    match exec rm ops (obs_choices o) 0 h_init with
     | Some l => val_eqb (VL l) o
     | None => false
     end
@@ -142,29 +188,25 @@ Definition agree_C07 (i o : val) : bool :=
 
 (* ------------------------------------------------------------------------------------------------
    THE PROPERTY on the implementation's observation: at every observation point each backend's count equals the
-   number of requests currently in flight on it (a request is in flight on b exactly while a backend b holds it),
+   number of requests / tunnels currently in flight on it (one is in flight on b exactly while a backend b holds it),
    is never negative, and is zero when nothing is in flight. *)
-Fixpoint holders (hold : list (nat * Z)) (b : Z) : Z :=
-  match hold with
-  | [] => 0
-  | (_, x) :: r => (if x =? b then 1 else 0) + holders r b
-  end.
+Definition holders (hold : nat -> option Z) (b : Z) : Z :=
+  fold_right (fun rid acc => acc + match hold rid with Some x => if x =? b then 1 else 0 | None => 0 end) 0 (seq 0 NR).
 
-Fixpoint prop_ops (ops : list hop) (obs : list val) (hold : list (nat * Z)) : bool :=
+Definition op_rid (o : hop) : nat := match o with HStart r _ _ => r | HRelease r => r | HTunnel r _ _ => r end.
+
+Fixpoint prop_ops (ops : list hop) (obs : list val) (hold : nat -> option Z) : bool :=
   match ops, obs with
   | [], [] => true
   | o :: ops', VL [VL att; VZ status; VZ held; VL cs] :: obs' =>
-    let rid := match o with HStart r _ _ => r | HRelease r => r end in
-    let hold0 := filter (fun p => negb (Nat.eqb (fst p) rid)) hold in
-    let hold' := if held =? 1 then
-                   match last att (VZ (-1)) with VZ b => (rid, b) :: hold0 | _ => hold0 end
-                 else hold0 in
+    let rid := op_rid o in
+    let hold' := upd hold rid (if held =? 1 then match last att (VZ (-1)) with VZ b => Some b | _ => None end else None) in
     match all_some (map as_Z cs) with
     | Some c =>
-      (length c =? 3)%nat
+      (length c =? 4)%nat
       && forallb (fun x => 0 <=? x) c
-      && forallb (fun b => nth (Z.to_nat b) c (-1) =? holders hold' b) [0; 1; 2]
-      && (match o with HStart _ _ _ => if held =? 1 then status =? 0 else negb (status =? 0) | HRelease _ => held =? 0 end)
+      && forallb (fun b => nth (Z.to_nat b) c (-1) =? holders hold' b) [0; 1; 2; 3]
+      && (match o with HRelease _ => held =? 0 | _ => if held =? 1 then status =? 0 else negb (status =? 0) end)
       && prop_ops ops' obs' hold'
     | None => false
     end
@@ -173,8 +215,15 @@ Fixpoint prop_ops (ops : list hop) (obs : list val) (hold : list (nat * Z)) : bo
 
 Definition prop_C07 (i o : val) : bool :=
   match decode_C07 i, o with
-  | Some (_, ops), VL obs => prop_ops ops obs []
+  | Some (_, ops), VL obs => prop_ops ops obs (fun _ => None)
   | _, _ => false
   end.
 
 Definition kf_C07 (i : val) : Z := 0.
+
+(* well-formed input: decodes, and the model can run it with the default choices (no start on an occupied slot) *)
+Definition wf_C07 (v : val) : bool :=
+  match decode_C07 v with
+  | Some (rm, ops) => match exec rm ops (rr_choices rm) 0 h_init with Some _ => true | None => false end
+  | None => false
+  end.
